@@ -1,0 +1,9 @@
+//go:build !verif
+
+package util
+
+// VerifPoint is a no-op unless built with the `verif` build tag.
+//
+// With the tag, named points can be traced, delayed or used as crash
+// points by external verification machinery.  See verifhook_on.go.
+func VerifPoint(name string, detail ...string) {}
